@@ -48,6 +48,32 @@ Fixpoint mismatches_from (V : variant) (k : nat) (cs : list case) : list (nat * 
   end.
 Definition mismatches (V : variant) := mismatches_from V 0.
 
+(* aggregate readers (harness actor kind A): the harness reports count(v) of the series, computed on the store's
+   aggregate path (pre-aggregation from chunk metadata + memtable rows), instead of the row set.  The model's count of a
+   view is the number of distinct batches in it - a view that showed the snapshot table together with a file flushed
+   from it would count those batches twice on that path.  cobs: reader index -> observed counts.  3 = a count differs *)
+Definition model_counts (st : state) (i : nat) : list nat := map (@length nat) (model_results st i).
+Definition check_case_a (V : variant) (specs : list aspec) (sched : list nat) (obs : list (nat * list (list nat)))
+  (cobs : list (nat * list nat)) : nat :=
+  match run V (init_state (map mk_actor specs)) sched with
+  | None => 1
+  | Some st =>
+      if forallb (fun o => lists_eqb (model_results st (fst o)) (map sort_dedup (snd o))) obs
+      then (if forallb (fun o => list_eqb (model_counts st (fst o)) (snd o)) cobs then 0 else 3)
+      else 2
+  end.
+Definition case_a := (list aspec * list nat * list (nat * list (list nat)) * list (nat * list nat))%type.
+Fixpoint mismatches_a_from (V : variant) (k : nat) (cs : list case_a) : list (nat * nat) :=
+  match cs with
+  | [] => []
+  | (sp, sc, ob, cb) :: r =>
+      match check_case_a V sp sc ob cb with
+      | 0 => mismatches_a_from V (S k) r
+      | c => (k, c) :: mismatches_a_from V (S k) r
+      end
+  end.
+Definition mismatches_a (V : variant) := mismatches_a_from V 0.
+
 (* ---- bounded enumeration of schedules in the normal form the harness can force:
    a write (append + acknowledgement), the tail of a query (reference memtables, read, release) and a close are
    macro steps whose model steps are adjacent; everything else is interleaved step by step. *)
